@@ -18,6 +18,13 @@ type solverSpec struct {
 	argv func(file string, timeout int) []string
 }
 
+// extra configurations used only when the standard portfolio could not decide an obligation
+var retrySolvers = []solverSpec{
+	{"z3-new/seed7", func(f string, t int) []string { return []string{"z3-new", fmt.Sprintf("-T:%d", t), "smt.random_seed=7", f} }},
+	{"z3-new/seed23", func(f string, t int) []string { return []string{"z3-new", fmt.Sprintf("-T:%d", t), "smt.random_seed=23", "smt.arith.random_initial_value=true", f} }},
+	{"z3/seed11", func(f string, t int) []string { return []string{"z3", fmt.Sprintf("-T:%d", t), "smt.random_seed=11", f} }},
+}
+
 var solvers = []solverSpec{
 	{"z3-new", func(f string, t int) []string { return []string{"z3-new", fmt.Sprintf("-T:%d", t), f} }},
 	{"z3", func(f string, t int) []string { return []string{"z3", fmt.Sprintf("-T:%d", t), f} }},
@@ -143,6 +150,10 @@ type solveResult struct {
 
 // raceSolvers runs all solvers on the file; first definite answer wins.
 func raceSolvers(file string, timeoutS int, only []string) solveResult {
+	return raceSolversWith(solvers, file, timeoutS, only)
+}
+
+func raceSolversWith(solvers []solverSpec, file string, timeoutS int, only []string) solveResult {
 	ctx, cancel := context.WithCancel(context.Background())
 	defer cancel()
 	ch := make(chan solveResult, len(solvers))
@@ -245,7 +256,28 @@ func (eng *Engine) solveAll(outDir string, timeoutS int, workers int) {
 		}(o)
 	}
 	wg.Wait()
-	// second round: obligations that did not discharge are retried with fewer hypotheses
+	// second round (a): obligations the standard portfolio left undecided are retried with other
+	// solver seeds and twice the time (performance of SMT solvers on quantified goals varies with seed)
+	for _, o := range eng.obligs {
+		if o.Canary || o.File == "" || o.Result != "unknown" {
+			continue
+		}
+		wg.Add(1)
+		sem <- struct{}{}
+		go func(o *Obligation) {
+			defer wg.Done()
+			defer func() { <-sem }()
+			r := raceSolversWith(append(append([]solverSpec{}, retrySolvers...), solvers...), o.File, 2*timeoutS, nil)
+			if r.res == "unsat" || r.res == "sat" {
+				o.Result, o.Solver, o.Time, o.Raw = r.res, r.solver+" (retry)", o.Time+r.secs, r.out
+				if r.res == "sat" {
+					o.Model = parseModel(r.out, o.Inputs)
+				}
+			}
+		}(o)
+	}
+	wg.Wait()
+	// second round (b): obligations that did not discharge are retried with fewer hypotheses
 	// (only the loop invariants that carry the goal's own clause name) - sound, often much faster
 	for _, o := range eng.obligs {
 		if o.Canary || o.Clause == "" || o.Result == "unsat" || o.Result == "sat" || o.File == "" || !strings.Contains(o.Decls, ";@inv:") {
